@@ -23,6 +23,7 @@ Views(S) ==
 
 Other(a) == [n |-> a[1], B |-> ConstructSet(a[2], a[1])]
 
+RECURSIVE Apply(_, _, _)
 Apply(S, op, a) ==
   CASE op = "construct" ->
          IF ~RowsInRange(a[2], a[1]) THEN Fail(S, "IndexError")
@@ -67,6 +68,15 @@ Apply(S, op, a) ==
          ELSE St(S.n, S.B, S.cmax, "ok", Neighbours(S.B, WrapOne(a[1], S.n)))
     [] op = "contains" ->
          St(S.n, S.B, S.cmax, "ok", Adjacent(S.B, a[1], a[2]))
+    \* a derived list (index / merge / concatenate / copy) is a new object: writing into it in
+    \* place leaves the source unchanged and vice versa.  a = <<how, x>>; refused exactly when
+    \* the derivation itself is refused
+    [] op = "independent" ->
+         LET d == CASE a[1] = "index" -> Apply(S, "index", <<a[2]>>)
+                    [] a[1] = "merge" -> Apply(S, "merge", a[2])
+                    [] a[1] = "concat" -> Apply(S, "concat", a[2])
+                    [] a[1] = "copy" -> Apply(S, "copy", <<>>)
+         IN IF d.oc = "ok" THEN St(S.n, S.B, S.cmax, "ok", "independent") ELSE Fail(S, d.oc)
     [] op = "views" -> St(S.n, S.B, S.cmax, "ok", Views(S))
     [] op = "copy" -> St(S.n, S.B, S.cmax, "ok", <<>>)
 =============================================================================
